@@ -87,3 +87,20 @@ struct Holder {
     5: Signed signed,
     6: required Color req_color,
 }
+
+// field ids declared out of ascending order (the compact length pass mirrors the writer's id-delta context, so encode and
+// size have to walk the fields in the same order)
+struct Shuffled {
+    5: i32 e,
+    1: bool a,
+    3: string c,
+    2: optional i64 b,
+    40: list<i32> far,
+    4: optional bool d,
+}
+
+union ShuffledChoice {
+    3: string third,
+    1: i32 first,
+    2: bool second,
+}
